@@ -1,4 +1,5 @@
 import H5V.Lemmas.HtmlTBContractRules1
+import H5V.Lemmas.HtmlTBContractTable
 import H5V.Lemmas.HtmlTBContractInit
 /-!
 # TreeSink contract for the HTML tree builder, part 9: foreign content, `process_to_completion`,
@@ -55,7 +56,21 @@ theorem rs_foreignEndTagLoop (hS : StepH d0) {tag : Tag} (ha : AttrsOk tag.attrs
       CPSP d0 c (foreignEndTagLoop tag i first) (fun _ => []) (ResLate (.tag tag)) := by
   intro i
   induction i with
-  | zero => intro first c; unfold foreignEndTagLoop; exact cpsp_pure_nil _ trivial
+  | zero =>
+    intro first c
+    unfold foreignEndTagLoop
+    refine cpsp_getS_bind (fun s0 => ?_)
+    cases hn : s0.openElems[0]? with
+    | none =>
+      dsimp only
+      intro s hcb hsa hc
+      exact SatC.bind (Q := fun _ _ => False) (satc_panicAt (by decide)) (fun _ _ h => h.elim)
+    | some node =>
+      dsimp only
+      simp only [pure_bind]
+      have hmem : node ∈ s0.openElems := List.mem_of_getElem? hn
+      refine cpsp_bind_cp (cp_elemName (by simp [stH, hmem])) (fun nodeName => ?_)
+      exact cpsp_ite (fun _ => cpsp_stepCurrent hS ha) (fun _ => cpsp_pure_nil _ trivial)
   | succ i ih =>
     intro first c
     unfold foreignEndTagLoop
@@ -306,6 +321,47 @@ theorem CI1.setQuirks {s : State} (h : CI1 d0 s) {m : QuirksMode} :
     ⟨⟨h.d.inv, h.d.run⟩, h.mode, h.st, h.af, h.head, h.form, h.ctx, h.docH, h.doc0, h.orig, h.tm⟩
   exact h1.sinkUnit (op := .setQuirksMode m) rfl
 
+/-- the "in body" rules, from the rules of all modes -/
+theorem StepH.bodyH (hS : StepH d0) : BodyH d0 := fun tok ht => hS .inBody tok (by decide) ht
+
+/-- `flush_pending_table_text`: the sink calls of the "anything else" arm of "in table text"; the answer is
+the original mode (not Initial) -/
+theorem cpsp_flushPendingTableText (hB : BodyH d0) {c : List Id} :
+    CPSP d0 c flushPendingTableText (fun _ => []) (fun m => m ≠ .initial) := by
+  unfold flushPendingTableText
+  dsimp only
+  have htail : ∀ c', CPSP d0 c' (do
+      let s ← getS
+      match s.origMode with
+      | none => panicAt "unwrap-none" "rules.rs:1172" "orig_mode.take().unwrap()"
+      | some m =>
+        set { s with origMode := none }
+        pure m) (fun _ => []) (fun m => m ≠ .initial) := by
+    intro c'
+    refine cpsp_getS_bind_at (fun s0 => ?_)
+    intro hcb hsa hc
+    cases hm : s0.origMode with
+    | none => exact satc_panicAt (by decide)
+    | some m =>
+      dsimp only
+      refine cpspat_set_bind (fun h1 h2 => cb_clearOrig h1 h2) ?_ hcb hsa hc
+      exact cpsp_pure_nil _ (orig_late hcb hm)
+  refine cpsp_getS_bind (fun s0 => ?_)
+  refine cpsp_bind_cp cp_modS_pendingClear (fun _ => ?_)
+  refine cpsp_ite (fun _ => ?_) (fun _ => ?_)
+  · refine cpsp_bind_cp cp_parseError (fun _ => ?_)
+    refine cpsp_bind (cps_flushPendingFoster hB _ _) (fun _ => ?_)
+    exact htail _
+  · refine cpsp_bind_cp (cp_flushPendingPlain _ _) (fun _ => ?_)
+    exact htail _
+
+/-- the DOCTYPE token in "in table text": flush, continue in the original mode -/
+theorem satc_flushThenSetMode (hS : StepH d0) {s : State} (hcb : CB d0 s) (hsa : SAnc s.dom s.openElems) :
+    SatC (do let m ← flushPendingTableText; setMode m) s (fun _ s' => CB d0 s' ∧ SAnc s'.dom s'.openElems) := by
+  refine (cpsp_flushPendingTableText hS.bodyH s hcb hsa (CtxOk.nil _)).bind ?_
+  rintro m s1 ⟨hcb1, hsa1, _, _, hm⟩
+  exact satc_of_cp (cp_setMode hm) hcb1 hsa1
+
 /-- the tokens of the tokenizer: tags carry `AttrsOk` attribute lists -/
 def TokTokOk : TokToken → Prop
   | .tag t => AttrsOk t.attrs
@@ -408,10 +464,20 @@ local macro "pt_rest" : tactic => `(tactic|
      · rw [if_neg (by
          intro e
          exact h2.1.l.mode (by simpa using e))]
-       refine (PI.parseError (Or.inr h2)).bind ?_
-       intro _ s3 h3
-       simp only [pure_bind]
-       exact satc_pure h3
+       refine satc_getS_bind ?_
+       refine satc_ite (fun _ => ?_) (fun _ => ?_)
+       · refine (cpsp_flushPendingTableText hS.bodyH _ h2.1 h2.2 (CtxOk.nil _)).bind ?_
+         rintro m s2' ⟨hcb2, hsa2, _, _, hm⟩
+         refine (satc_of_cp (cp_setMode hm) hcb2 hsa2).bind ?_
+         intro _ s3 h3
+         refine (PI.parseError (Or.inr h3)).bind ?_
+         intro _ s4 h4
+         simp only [pure_bind]
+         exact satc_pure h4
+       · refine (PI.parseError (Or.inr h2)).bind ?_
+         intro _ s3 h3
+         simp only [pure_bind]
+         exact satc_pure h3
    | tag t => dsimp only; simp only [pure_bind]; exact satc_ptcStart hS h2 ht
    | comment c => dsimp only; simp only [pure_bind]; exact satc_ptcStart hS h2 trivial
    | nullChar => dsimp only; simp only [pure_bind]; exact satc_ptcStart hS h2 trivial
